@@ -40,6 +40,7 @@ pub struct VxSystemTime { pub x: u8 }
 //@ end
 
 //@ include prelude/ims_sum.rs
+//@ include prelude/shq_truthful.rs
 //@ include prelude/shq_vocab.rs
 
 
